@@ -23,7 +23,7 @@ ASSUMPTIONS = ['residual tolerance 1e-5*size (1e-3 with an arc) as stated by the
                'exceptions tolerated only for two arcs that are not both circular and unrotated',
                'curve sizes between 1 and 1e3']
 
-FAMILIES = ['cross', 'touch', 'miss_1e-3', 'miss_1e-7', 'far', 'endpoint']
+FAMILIES = ['cross', 'touch', 'miss_1e-3', 'miss_1e-7', 'far', 'endpoint', 'node']
 
 
 def kind(s):
@@ -58,6 +58,12 @@ def configure(aname, bname, fam, tA, tB, alpha, scale):
         B = isect.place(bname, tB, A, tA, alpha, scale)
         n = isect.tangent(A, tA) * 1j
         B = shift(B, n * 0.4 * seg_size(A))
+    elif fam == 'node':
+        # B passes through a point that A visits twice (the node of a loop)
+        node = isect.loop_node(A)
+        if node is None:
+            return A, None
+        B = isect.place(bname, tB, A, node[0], alpha, scale)
     elif fam == 'endpoint':
         # B starts exactly at A's end point
         B = isect.place(bname, 0.0, A, 1.0, alpha, scale)
@@ -95,6 +101,9 @@ def judge_pairs(A, B, pairs, case, acc, sig):
 
 def check_config(aname, bname, fam, tA, tB, alpha, scale, acc):
     A, B = configure(aname, bname, fam, tA, tB, alpha, scale)
+    if B is None:
+        acc.filt('curve_has_no_node')
+        return
     case = {'what': 'segments', 'A': aname, 'B': bname, 'family': fam, 'tA': tA, 'tB': tB, 'alpha': alpha, 'scale': scale}
     if A == B:
         acc.filt('identical_curves')
@@ -240,7 +249,7 @@ def expected_classes(tier):
     for a in 'LQCA':
         for b in 'LQCA':
             out.append('%s%s/cross/nonempty' % (a, b))
-    out += ['paths/nonempty', 'QQ/miss_1e-3/empty', 'CC/far/empty']
+    out += ['paths/nonempty', 'QQ/miss_1e-3/empty', 'CC/far/empty', 'CQ/node/nonempty', 'CL/node/nonempty']
     return out
 
 
